@@ -86,8 +86,10 @@ fn run_nth(a: i32, b: i32, i: i64) -> String {
             .find(|j| child.contains(j) != expected.contains(j))
             .unwrap();
         let kind = if child.contains(&j) { "false-positive" } else { "false-negative" };
+        // site tag: the (repaired, 614f5b5) wrap-around zone `j - b >= 2^31` vs anything else
+        let tag = if j - b as i64 >= 1 << 31 { "nth-offset-wrap" } else { "nth" };
         out.push_str(&format!(
-            " ||ORACLE:C04:nth-offset-wrap {kind}: `{sel_child}` on child {j}: handler {} but a*n+b=i {}",
+            " ||ORACLE:C04:{tag} {kind}: `{sel_child}` on child {j}: handler {} but a*n+b=i {}",
             if child.contains(&j) { "fired" } else { "did not fire" },
             if expected.contains(&j) { "has a solution n>=0" } else { "has no solution n>=0" }
         ));
@@ -419,9 +421,8 @@ pub fn run(line: &str) -> String {
 mod tests {
     use super::run_selectors;
 
-    /// Replays the two findings of docs/pkg-selpure.md with literally spelled selectors
-    /// (`cargo test --offline -- --nocapture replay`). Prints observed vs CSS-expected; asserts only
-    /// the sanity cases, so it keeps passing once the defects are repaired.
+    /// Regression of the two findings of docs/pkg-selpure.md (repaired in /repo by 614f5b5 and
+    /// 11ef1d1) with literally spelled selectors: `cargo test --offline -- --nocapture replay`.
     #[test]
     fn replay_findings_with_literal_selectors() {
         let fired = |sel: &str, doc: &str| -> usize {
@@ -436,7 +437,9 @@ mod tests {
             ("x:nth-child(n-2147483646)", 2),
             ("x:nth-child(2n+1)", 1),
         ] {
-            println!("{sel:32} on {doc}: fired {} times, CSS expects {css}", fired(sel, doc));
+            let n = fired(sel, doc);
+            println!("{sel:32} on {doc}: fired {n} times, CSS expects {css}");
+            assert_eq!(n, css, "{sel}");
         }
         for (sel, doc, css) in [
             ("x[k^=\"\"]", "<x data-probe=p k=\"foo\">", 0),
@@ -447,7 +450,9 @@ mod tests {
             ("x[k*=\"\"]", "<x data-probe=p k=\"foo\">", 0),
             ("x[k~=\"\"]", "<x data-probe=p k=\"a b\">", 0),
         ] {
-            println!("{sel:32} on {doc}: fired {} times, CSS expects {css}", fired(sel, doc));
+            let n = fired(sel, doc);
+            println!("{sel:32} on {doc}: fired {n} times, CSS expects {css}");
+            assert_eq!(n, css, "{sel}");
         }
         assert_eq!(fired("x:nth-child(2n+1)", doc), 1);
         assert_eq!(fired("x[k*=\"\"]", "<x data-probe=p k=\"foo\">"), 0);
